@@ -80,6 +80,10 @@ def find(req):
     import archive_probe
     import C09_probe as P
     oid = (req or {}).get("obligation") or ""
+    if "read-back-path-identifies-one-member" in oid or (req or {}).get("known_finding") == "C09-7z-read-back-by-path-collisions":
+        # a recorded defect of the unchanged tree: probed only for its own obligation, never as a witness for another one
+        r = P.name_collisions_7z()
+        return r if r is not None else {"reproduced": False, "note": "7z entries sharing one path: no selected member gave another entry's bytes"}
     hint = (req or {}).get("extra") or {}
     first = tuple(hint.get("first", ())) if isinstance(hint, dict) else ()
     probes = [("function-level", function_level), ("confinement", lambda: P.confinement(first)), ("histories", P.histories), ("skip-rules", P.skip_rules),
